@@ -69,6 +69,8 @@ func loadKnown(verif string) map[string]KnownFinding {
 	return out
 }
 
+var currentTier int
+
 func runCheck(prop, repo, verif, tier string, workers int, only string, timeout time.Duration, noReplay, debug bool) int {
 	t0 := time.Now()
 	seed := int64(0)
@@ -90,6 +92,7 @@ func runCheck(prop, repo, verif, tier string, workers int, only string, timeout 
 	if tier == "thorough" {
 		eng.tier = 1
 	}
+	currentTier = eng.tier
 	eng.known = loadKnown(verif)
 	eng.engineOnly = map[string]bool{}
 	for _, h := range harnessNotes(verif, "//verif:engine-only ", "") {
@@ -257,9 +260,15 @@ func missingWitnesses(verif string, results []*RunResult) []string {
 }
 
 func writeReplay(path, prop string, v *Violation) {
+	vals := map[string]uint64{}
+	for _, in := range v.Inputs {
+		for _, vn := range in.Vars {
+			vals[vn] = v.Model[vn]
+		}
+	}
 	doc := map[string]interface{}{
 		"property": prop, "harness": v.Harness, "kind": v.Kind, "label": v.Label, "detail": v.Detail,
-		"inputs": v.Inputs, "choices": v.Choices, "trace": v.Trace,
+		"inputs": v.Inputs, "choices": v.Choices, "trace": v.Trace, "decisions": v.Decisions, "values": vals, "tier": currentTier,
 	}
 	b, _ := json.MarshalIndent(doc, "", " ")
 	os.WriteFile(path, b, 0o644)
@@ -381,4 +390,63 @@ func harnessNotes(verif, prefix, tier string) []string {
 		}
 	}
 	return out
+}
+
+// runReplay re-executes one stored counterexample deterministically in the engine (decision
+// vector followed, inputs pinned to the recorded values) with a call trace, then natively.
+func runReplay(path, repo, verif string) int {
+	b, err := os.ReadFile(path)
+	if err != nil {
+		fmt.Fprintln(os.Stderr, err)
+		return 2
+	}
+	var doc ReplayDoc
+	if err := json.Unmarshal(b, &doc); err != nil {
+		fmt.Fprintln(os.Stderr, err)
+		return 2
+	}
+	ov, err := harnessOverlay(verif, repo)
+	if err != nil {
+		fmt.Fprintln(os.Stderr, err)
+		return 2
+	}
+	eng, err := loadEngine(repo, ov)
+	if err != nil {
+		fmt.Fprintln(os.Stderr, "load:", err)
+		return 2
+	}
+	eng.workers = 1
+	eng.tier = doc.Tier
+	eng.known = loadKnown(verif)
+	eng.engineOnly = map[string]bool{}
+	if err := eng.runInit(); err != nil {
+		fmt.Fprintln(os.Stderr, "init:", err)
+		return 2
+	}
+	eng.replay = &doc
+	eng.traceCalls = true
+	var fn *ssa.Function
+	for _, p := range []*ssa.Package{eng.logPkg, eng.exprPkg} {
+		if p != nil && p.Func(doc.Harness) != nil {
+			fn = p.Func(doc.Harness)
+		}
+	}
+	if fn == nil {
+		fmt.Fprintf(os.Stderr, "harness %s not found\n", doc.Harness)
+		return 2
+	}
+	res := eng.runHarness(fn, 10*time.Minute)
+	fmt.Printf("engine replay of %s (%s %s): paths=%d outcomes=%v\n", doc.Harness, doc.Kind, doc.Label, res.Paths, res.Outcomes)
+	rc := 0
+	for _, v := range res.Violations {
+		fmt.Printf("  reproduced in the engine: %s %s %s\n    inputs=%s\n", v.Kind, v.Label, v.Detail, jsonStr(v.Inputs))
+		for _, l := range v.Trace {
+			fmt.Printf("    | %s\n", l)
+		}
+		rc = 1
+	}
+	if rc == 0 {
+		fmt.Println("  no violation on the replayed path (the defect is not present in the current tree, or the file is stale)")
+	}
+	return rc
 }
